@@ -1451,7 +1451,10 @@ def _b_len(interp, args, kw):
         return interp.call(BoundMethod(f, x), [], {})
     if isinstance(x, (Z, XR, int, Fraction)):
         raise PyRaise("TypeError", f"object of type '{pytype_name(x)}' has no len()")
-    return len(x)
+    try:
+        return len(x)
+    except TypeError:
+        raise OutOfSubset(f"len() of a harness object of type {type(x).__name__} (no length contract)")
 
 
 def _b_max(interp, args, kw):
